@@ -44,6 +44,8 @@ type Cmd struct {
 	After    Beh
 	LongDesc string
 	Hidden   bool
+	// VersionNames (root only): the names given to app.Version when App.Version is set (default "V version")
+	VersionNames string
 	// InAction, when set, is called from inside the Action (after the snapshot): nested or cooperating applications
 	InAction func()
 	// Policy, when set, is assigned to the command's ErrorHandling at the start of its own initializer
@@ -188,7 +190,7 @@ func buildApp(a *App, o *Obs, setEnv *[]string) (*cli.Cli, map[int]*recs, func(c
 		app.ErrorHandling = a.Policy
 	}
 	if a.Version {
-		app.Version("V version", "ver-1.2.3")
+		app.Version(a.Root.VersionOptNames(), "ver-1.2.3")
 	}
 	all := map[int]*recs{}
 	var build func(c *cli.Cmd, t *Cmd)
@@ -727,4 +729,12 @@ func CompileSequence(specs []string, declMask int, version bool) (outs []SpecOut
 		outs = append(outs, out)
 	}
 	return outs
+}
+
+// VersionOptNames are the names of the version flag of an application rooted at t
+func (t *Cmd) VersionOptNames() string {
+	if t.VersionNames != "" {
+		return t.VersionNames
+	}
+	return "V version"
 }
